@@ -30,7 +30,7 @@ DELETE = [r"^\s*self\.\w+(\.\w+)*\.clear\(\);\s*$", r"^\s*self\.\w+ = None;\s*$"
 
 def sh(cmd, cwd=None, timeout=3000, env=ENV):
     try:
-        p = subprocess.run(cmd, cwd=cwd, env=env, stdout=subprocess.PIPE, stderr=subprocess.STDOUT, text=True, errors="replace", timeout=timeout, shell=isinstance(cmd, str))
+        p = subprocess.run(cmd, cwd=cwd, env=env, stdout=subprocess.PIPE, stderr=subprocess.STDOUT, text=True, errors="replace", timeout=timeout, shell=isinstance(cmd, str), executable="/bin/bash" if isinstance(cmd, str) else None)
         return p.returncode, p.stdout
     except subprocess.TimeoutExpired as e:
         return 124, (e.stdout or "") if isinstance(e.stdout, str) else ""
@@ -115,8 +115,10 @@ def run(count, seed):
         if "error" in out and "warning: unused" not in out.split("error")[0][-30:] and ("could not compile" in out or "error[" in out or "error:" in out):
             rec["result"] = "does-not-compile"
         else:
-            rc, out = sh("cargo test --workspace --no-fail-fast --offline 2>&1 | grep -E '^test result|panicked|FAILED' | head -20", cwd=MREPO)
-            if "FAILED" in out or "failed" in out and " 0 failed" not in out.replace("; 0 failed", " 0 failed"):
+            rc, out = sh("timeout -k 5 240 cargo test --workspace --no-fail-fast --offline 2>&1 | grep -E '^test result|panicked|FAILED|timed out' | head -20; echo rc=${PIPESTATUS[0]}", cwd=MREPO, timeout=400)
+            sh("pkill -9 -f /tmp/mut/repo/target/debug/deps/ || true")
+            passed = sum(int(m) for m in re.findall(r"test result: ok\. (\d+) passed", out))
+            if "FAILED" in out or "rc=124" in out or "rc=137" in out or passed < 153:
                 rec["result"] = "killed-by-existing-tests"
             else:
                 rec["result"] = "SURVIVED-ALL-CHECKS"
